@@ -278,15 +278,24 @@ func main() {
 			b = spec.ThoroughSec
 		}
 	}
+	// Long budgets are served by several worker processes in a row per slot
+	// (fresh address space every two minutes: crashed incarnations of the
+	// simulated daemon leave their frozen goroutines and heaps behind for good).
+	rounds := 1
+	if b > 150 && *exact == 0 && *runs == 0 {
+		rounds = int((b + 119) / 120)
+	}
 	var wg sync.WaitGroup
-	results := make([]workerRun, *workers)
+	results := make([]workerRun, *workers*rounds)
 	for w := 0; w < *workers; w++ {
 		wg.Add(1)
 		go func(w int) {
 			defer wg.Done()
-			job := simkit.Job{Property: prop, Tier: *tier, Mode: "explore", SeedBase: uint64(seed), Worker: w, Workers: *workers,
-				MaxRuns: *runs, BudgetSec: b, Scenario: *scenario, NoShrink: *noShrink, ExactSeed: *exact}
-			results[w] = runWorker(bin, job, dir, time.Duration(b*float64(time.Second))*6+10*time.Minute)
+			for k := 0; k < rounds; k++ {
+				job := simkit.Job{Property: prop, Tier: *tier, Mode: "explore", SeedBase: uint64(seed), Worker: w + k**workers, Workers: *workers * rounds,
+					MaxRuns: *runs, BudgetSec: b / float64(rounds), Scenario: *scenario, NoShrink: *noShrink, ExactSeed: *exact}
+				results[w+k**workers] = runWorker(bin, job, dir, time.Duration(b/float64(rounds)*float64(time.Second))*6+10*time.Minute)
+			}
 		}(w)
 	}
 	wg.Wait()
